@@ -15,6 +15,7 @@ import QmcProofs.Loop
 import QmcProofs.LoopConsistent
 import QmcProofs.LoopSingleSite
 import QmcProofs.LoopNoPanic
+import QmcProofs.LoopPath
 import QmcProofs.Generic
 import QmcProps.C16
 import QmcProps.C08
@@ -360,6 +361,94 @@ theorem loop_head_exists (w : Nat → List Bool → List Bool → Rat) (init : N
   ⟨fun slots rs rs' p leg h => LoopC.loopStart_head slots rs rs' p leg h,
    fun p e h => LoopC.loopBody_head w init pos ent s p e h⟩
 
+
+/-! ### 3c. reversibility of the closed-loop move, as far as the model carries it (F22) -/
+
+/-- **Forward and reverse start probability agree.** `Σk` is a skeleton invariant, so the result
+`c'` of a loop update has the same `Σk` as `c`; under the new rule every existing leg of `c`
+(in particular the forward start leg) and every existing leg of `c'` has start probability
+`1/(2Σk)` (`start_uniform`) — and the exit leg of every visit, in particular of the last one,
+which is where the reverse loop starts (the start leg itself if the loop closed through
+`(pos, exit) = init`, its link partner if it closed by arriving at it), is an existing leg of
+`c'`. Under the old rule the two differed by `k_partner / k_start`
+(`old_start_rule_not_leg_uniform`). -/
+theorem loop_reverse_start_prob_eq (w : Nat → List Bool → List Bool → Rat) (cfg : Config) (rs : RS) :
+    totalVars (loopUpdate w cfg rs).1.slots = totalVars cfg.slots ∧
+    startLegProb (loopUpdate w cfg rs).1.slots = startLegProb cfg.slots ∧
+    ∀ v ∈ LoopC.loopUpdateTrace w cfg rs,
+      LoopC.HeadOK (loopUpdate w cfg rs).1.slots v.pos v.ex ∧ LoopC.HeadOK cfg.slots v.pos v.ex := by
+  have ht := LoopC.loopUpdate_totalVars w cfg rs
+  refine ⟨ht, by unfold startLegProb; rw [ht], ?_⟩
+  intro v hv
+  have hsk := LoopC.loopUpdate_skeleton w cfg rs
+  have h0 : LoopC.HeadOK cfg.slots v.pos v.ex := by
+    unfold LoopC.loopUpdateTrace at hv
+    split at hv
+    · simp at hv
+    · rcases hs : loopStart cfg.slots rs with ⟨_ | ⟨p, leg⟩, rs'⟩
+      · rw [hs] at hv; simp at hv
+      · rw [hs] at hv
+        exact LoopC.loopTrace_exit_exists w (p, leg) cfg.slots _ p leg _ rfl v hv
+  exact ⟨LoopC.headOK_skeleton hsk.symm h0, h0⟩
+
+/-- **The trace of a closed run is a closed loop**: it starts by entering the start leg, every
+visit enters through the link partner of the previous visit's exit leg (`LoopC.partnerOf`, the
+code's next / previous / first / last getters), and the last visit closes (`LoopC.Closes`: its
+exit leg is the start leg or is linked to it). -/
+theorem loop_trace_is_path (w : Nat → List Bool → List Bool → Rat) (cfg : Config) (rs : RS)
+    (hn : countOps cfg.slots ≠ 0) (hcl : LoopClosed (loopUpdate w cfg rs).2) :
+    ∃ p leg rs', loopStart cfg.slots rs = (some (p, leg), rs') ∧
+      LoopC.IsPath cfg.slots (p, leg) p leg true (LoopC.loopUpdateTrace w cfg rs) := by
+  unfold loopUpdate at hcl
+  rw [if_neg hn] at hcl
+  unfold LoopC.loopUpdateTrace
+  rw [if_neg hn]
+  rcases hs : loopStart cfg.slots rs with ⟨_ | ⟨p, leg⟩, rs'⟩
+  · exfalso
+    rw [hs] at hcl
+    simp only at hcl
+    have : rs'.panicked = true ∨ rs'.short = true := by
+      unfold loopStart at hs
+      simp only at hs
+      split at hs
+      · injection hs with _ h2; rw [← h2]; exact Or.inl rfl
+      · split at hs
+        · rename_i hfl
+          injection hs with _ h2
+          rw [← h2]
+          simpa using hfl
+        · injection hs with h1 _; cases h1
+    rcases this with h | h
+    · rw [hcl.1] at h; cases h
+    · rw [hcl.2] at h; cases h
+  · rw [hs] at hcl
+    simp only at hcl ⊢
+    refine ⟨p, leg, rs', rfl, ?_⟩
+    have := LoopC.loopTrace_isPath w (p, leg) cfg.slots (rs'.script.length + 1) p leg
+      { state := cfg.state, slots := cfg.slots, rs := rs' } rfl
+    rw [hcl.1, hcl.2] at this
+    exact this
+
+/-- **Path balance.** With `W(c) = Π stored matrix elements` (the SSE weight up to the factor
+`β^n (L-n)!/L!`, unchanged by the loop), `P(path) = P_start · Π_i P(op_i; ent_i → ex_i)` along the
+visits of the run and `P(reverse path) = P_start' · Π_i P(op_i'; ex_i → ent_i)` — the reverse walk
+on the result `c'`, entering each rewritten vertex through the old exit and leaving through the
+old entrance —: `W(c) · P(path) = W(c') · P(reverse path)`, for every weight function,
+configuration and script. Each vertex visit contributes `exit_local_balance`, the links
+contribute nothing, the product of matrix elements changes by exactly the visited ops
+(`LoopC.loopIter_weight`), and both start factors are `1/(2Σk)`. -/
+theorem loop_path_balance (w : Nat → List Bool → List Bool → Rat) (cfg : Config) (rs : RS) :
+    LoopC.slotsWeight w cfg.slots *
+        (startLegProb cfg.slots * LoopC.pathProb w (LoopC.loopUpdateTrace w cfg rs)) =
+      LoopC.slotsWeight w (loopUpdate w cfg rs).1.slots *
+        (startLegProb (loopUpdate w cfg rs).1.slots *
+          LoopC.pathProbRev w (LoopC.loopUpdateTrace w cfg rs)) := by
+  rw [(loop_reverse_start_prob_eq w cfg rs).2.1]
+  have := LoopC.loopUpdate_path_balance w cfg rs
+  calc _ = startLegProb cfg.slots *
+        (LoopC.slotsWeight w cfg.slots * LoopC.pathProb w (LoopC.loopUpdateTrace w cfg rs)) := by ring
+    _ = _ := by rw [this]; ring
+
 /-! ### 4. cluster gate -/
 
 /-- samplers reachable through the public interface (flags part) -/
@@ -625,6 +714,15 @@ example : (loopUpdate wlW wlCfg (RS.ofScript [0, 0, 0, 0])).1
     LoopClosed (loopUpdate wlW wlCfg (RS.ofScript [0, 0, 0, 0])).2 ∧
     (loopUpdate wlW wlCfg (RS.ofScript [0, 0, 0, 0])).2.draws = 4 ∧
     Consistent (loopUpdate wlW wlCfg (RS.ofScript [0, 0, 0, 0])).1 := by
+  decide +kernel
+
+
+/-- the trace of the closed two-visit run above: two visits, entered through the output legs,
+left through the input legs; forward path probability `1/4 · (1/2)²` -/
+example : (LoopC.loopUpdateTrace wlW wlCfg (RS.ofScript [0, 0, 0, 0])).map
+      (fun v => (v.pos, v.ent, v.ex)) = [(0, ⟨0, true⟩, ⟨0, false⟩), (1, ⟨0, true⟩, ⟨0, false⟩)] ∧
+    startLegProb wlCfg.slots *
+      LoopC.pathProb wlW (LoopC.loopUpdateTrace wlW wlCfg (RS.ofScript [0, 0, 0, 0])) = 1 / 16 := by
   decide +kernel
 
 /-- a walk that has not closed when the script ends is flagged, and in general not periodic:
